@@ -62,7 +62,7 @@ func (cl Serializer) DecodeDnsResponseWithParams(msg *dns.Msg, downstream enc.En
 			return req, err
 		}
 	}
-	return nil, errors.Errorf("Invalid response from server. Don't know how to handle command type: %v", string(data[0]))
+	return nil, errors.Errorf("Invalid response from server. Don't know how to handle command type: %q", data)
 }
 
 // EncodeDnsRequest will take a Request and encode it as a DNS message
@@ -160,5 +160,5 @@ func (cl Serializer) DecodeDnsRequest(request []byte) (Request, error) {
 			return req, err
 		}
 	}
-	return nil, errors.Errorf("Invalid request. Don't know how to handle command type: %v", string(request[0]))
+	return nil, errors.Errorf("Invalid request. Don't know how to handle command type: %q", request)
 }
